@@ -515,4 +515,42 @@ theorem listMerge {S : Schema} (K : KeyOrderOn S P) {o : MergeOpts}
   | c :: cs => listMerge_cons K (nodeMerge K hq c) (listMerge K hq cs)
 end
 
+/-! ### the composition law for exact literal diffs -/
+
+/-- `D1` an exact literal diff for `A` leading to `B'`, `D2` an exact literal diff for `B'`, meeting only in leaf cells and
+`none` / `none` inner nodes: `lyd_diff_merge_all(D1, D2)` succeeds and applying the merged diff to `A` gives what `D2` makes of
+`B'`, up to `normN` -/
+theorem merge_apply_exact {S : Schema} (K : KeyOrderOn S P) {o : MergeOpts}
+    (hq : o.defaults = true → Generated.Diff13.mergeDfltNeedsDeletedDflt = true) {A B' D1 D2 : List DNode}
+    (hA : goodT S P A = true) (hD1 : exactDiff S P A D1 = true) (hl1 : litL D1 = true) (hB' : apply S A D1 fx = .ok B')
+    (hD2 : exactDiff S P B' D2 = true) (hl2 : litL D2 = true) (hsafe : mergeSafe S D1 D2 = true) :
+    ∃ M C' C'', mergeDiff o S D1 D2 = .ok M ∧ apply S A M fx = .ok C'' ∧ apply S B' D2 fx = .ok C' ∧
+      normL13 C'' = normL13 C' := by
+  have hdk1 : dk S false D1 = D1 := by simp [dk]
+  have hdk2 : dk S false D2 = D2 := by simp [dk]
+  obtain ⟨E, hE⟩ := exactK_acts (fx := fx) (nodesFwd K D1) hA hD1
+  have hlvl := exactK_level K false D1 hD1
+  obtain ⟨X1, hX1, hgX1, hkX1, hloc1, hval1⟩ := exactK_apply (fx := fx) (n := heightL D1 + 1) (hp := false) K hA hD1 hE
+    (by rw [hdk1]; exact Nat.le_succ _) hA rfl
+  rw [hdk1] at hE hlvl hX1 hloc1 hval1
+  have hXB : X1 = B' := by
+    rw [apply_eq_applyF, hX1] at hB'
+    exact Except.ok.inj hB'
+  subst hXB
+  have hT : TInv S P fx none D1 A E := ⟨hlvl, fun c hc => (exactK_mem false D1 hD1 c (by rw [hdk1]; exact hc)).2, hE⟩
+  have hR : Rel S P D1 A E X1 := ⟨hval1, fun q hq hall => by rw [hloc1 q hq hall]⟩
+  obtain ⟨M, E', C', hm, ha, hgC', _, hT', hR'⟩ := listMerge (fx := fx) K hq D2 (heightL D2 + 1) false none none false [] D1 A X1 E
+    (Or.inl rfl) (Or.inl rfl) (Nat.le_succ _) hA hgX1
+    (fun c hc => by intro k hk; rw [← hkX1] at hk; exact hc k hk) (by simp) hT hR
+    (by
+      intro c hc t ht hmt
+      rw [hdk2] at hc
+      exact ⟨⟨(exactK_mem false D1 hD1 t (by rw [hdk1]; exact ht)).1, litL_mem hl1 ht⟩, safeK_mem hsafe c hc t ht hmt⟩)
+    hD2 hl2
+  rw [hdk2] at ha
+  simp only [List.nil_append] at hm
+  obtain ⟨C'', hC'', hgC'', _, hoff, hon⟩ := hT'.apply (n := heightL M + 1) (hp := false) K (Nat.le_succ _) hA rfl
+  refine ⟨M, C', C'', hm, by rw [apply_eq_applyF]; exact hC'', by rw [apply_eq_applyF]; exact ha, ?_⟩
+  exact Rel.result K hT'.lvl hR' hgC' rfl hgC'' hoff hon
+
 end LyModel.Diff.K13
